@@ -72,6 +72,15 @@ type Opts struct {
 	// terminal and with stdio on pipes.
 	NoTTY bool
 	Uid   int
+	// Stdin, Stdout, Stderr (with a TTY only): a descriptor that is not nil is
+	// what the child gets instead of the terminal (`prog </dev/null`, `prog |
+	// ...` typed at an interactive terminal).  The pty remains the child's
+	// CONTROLLING terminal: the child is a session leader and TIOCSCTTY is done
+	// on whichever of its descriptors 0-2 still is the pty - or, when all
+	// three are redirected, on an additional descriptor 3 that is the pty (the
+	// caller may have a shell wrapper close it: `exec "$0" "$@" 3>&-`).  The
+	// files stay the caller's: it closes its copies once Start has returned.
+	Stdin, Stdout, Stderr *os.File
 }
 
 type chunk struct {
@@ -133,7 +142,26 @@ func Start(o Opts) (*Proc, error) {
 		p.master, p.slave = m, s
 		p.Before, _ = Termios(s)
 		cmd.Stdin, cmd.Stdout, cmd.Stderr = s, s, s
-		cmd.SysProcAttr = &syscall.SysProcAttr{Setsid: true, Setctty: true, Ctty: 0}
+		ctty := -1
+		for fd, f := range []*os.File{o.Stdin, o.Stdout, o.Stderr} {
+			switch {
+			case f == nil:
+				if ctty < 0 {
+					ctty = fd
+				}
+			case fd == 0:
+				cmd.Stdin = f
+			case fd == 1:
+				cmd.Stdout = f
+			case fd == 2:
+				cmd.Stderr = f
+			}
+		}
+		if ctty < 0 {
+			cmd.ExtraFiles = []*os.File{s}
+			ctty = 3
+		}
+		cmd.SysProcAttr = &syscall.SysProcAttr{Setsid: true, Setctty: true, Ctty: ctty}
 	}
 	if o.Uid != 0 {
 		cmd.SysProcAttr.Credential = &syscall.Credential{Uid: uint32(o.Uid), Gid: uint32(o.Uid)}
@@ -311,6 +339,14 @@ func lastNL(b []byte) int {
 		}
 	}
 	return -1
+}
+
+// Strip interprets b the way Clean does for the terminal's output (escape
+// sequences removed, cursor-left + erase applied): for terminal-style output
+// that was redirected to a pipe or a file.
+func Strip(b []byte) string {
+	var e escState
+	return string(e.feed(nil, b))
 }
 
 // Raw returns everything read from the terminal so far.
